@@ -356,6 +356,102 @@ func Stress(seed uint64, goroutines, iters int) string {
 	return fmt.Sprintf("ok %d", len(seen))
 }
 
+// StressCold: a freshly built tree that NOTHING has traversed yet (no dump, no warm-up query) is
+// queried from its root by all goroutines at the same moment, namespace and attribute axes first:
+// whatever the store or the evaluator computes lazily on first access is computed for the first
+// time concurrently (seeded change C14-6: namespace cursors created on the first Namespaces() call).
+// The tree is dumped and the serial reference results are computed only afterwards.
+func StressCold(seed uint64, goroutines int) string {
+	r := NewRng(seed ^ 0x5eed)
+	cfg := DefaultDocCfg()
+	cfg.MaxNodes, cfg.MaxKids = 60, 5
+	evs := GenEvents(r, cfg)
+	for tries := 0; tries < 20 && len(evs) < 40; tries++ {
+		evs = GenEvents(r, cfg)
+	}
+	root, err := BuildTree(evs)
+	if err != nil {
+		return "builderr"
+	}
+	texts := []string{"count(//namespace::*)", "//*/namespace::*", "count(//*/namespace::*[. != ''])", "//*[last()]/namespace::*[1]", "count(//@*)", "//*/@*",
+		"string(/)", "count(//node())", "//*[. = //*[1]]", "count(//*[name() = local-name()])", "//*[lang('en')]", "count(//text()[string-length() > 0])"}
+	var qs []xsel.Grammar
+	for _, t := range texts {
+		g, err := xsel.BuildExpr(t)
+		if err != nil {
+			return "builderr " + t
+		}
+		qs = append(qs, g)
+	}
+	type raw struct {
+		qi  int
+		res xsel.Result
+		err error
+		pan bool
+	}
+	var wg sync.WaitGroup
+	var mu sync.Mutex
+	var seen []raw
+	start := make(chan struct{})
+	for gi := 0; gi < goroutines; gi++ {
+		wg.Add(1)
+		go func(gi int) {
+			defer wg.Done()
+			local := make([]raw, 0, 2*len(qs))
+			<-start
+			for rep := 0; rep < 2; rep++ {
+				for k := range qs {
+					qi := k
+					if rep == 1 {
+						qi = (k + gi) % len(qs)
+					}
+					func() {
+						o := raw{qi: qi}
+						defer func() {
+							if rec := recover(); rec != nil {
+								o.pan = true
+							}
+							local = append(local, o)
+						}()
+						o.res, o.err = xsel.Exec(root, &qs[qi])
+					}()
+				}
+			}
+			mu.Lock()
+			seen = append(seen, local...)
+			mu.Unlock()
+		}(gi)
+	}
+	close(start)
+	wg.Wait()
+	d := DumpTree(root)
+	want := make([]string, len(qs))
+	for i := range qs {
+		want[i] = runShared(d, 0, &qs[i], nil)
+	}
+	for _, o := range seen {
+		got := "panic"
+		if !o.pan {
+			if o.err != nil {
+				got = "err"
+			} else {
+				got = func() (out string) {
+					defer func() {
+						if rec := recover(); rec != nil {
+							out = "not-a-node-of-the-tree"
+						}
+					}()
+					return EncResult(d, o.res)
+				}()
+			}
+		}
+		if got != want[o.qi] {
+			return fmt.Sprintf("mismatch cold query %q from the root: concurrent %s, serial %s", texts[o.qi], got, want[o.qi])
+		}
+	}
+	return fmt.Sprintf("ok %d", len(seen))
+}
+
 func runShared(d *Dump, start int, g *xsel.Grammar, settings []xsel.ContextApply) (out string) {
 	defer func() {
 		if rec := recover(); rec != nil {
